@@ -37,38 +37,70 @@ inductive DecodeErr where
   | value        -- int() / float() raises ValueError
 deriving DecidableEq, Repr
 
-/-- trajectories_from_file (csv.py:429-445): a part is present when ALL its tokens are non-empty, and then every token must
-  be a float -/
+/-- the fields of an incomplete group must still be numbers (the D31 fix): ValueError at the first one that is given and is not -/
+def givenAreFloats (c : Codec F) (toks : List Str) : Bool :=
+  toks.all (fun t => t == [] || (c.parse t).isSome)
+
+/-- the rotation of a trajectory row -/
+def trajRotOfFields (c : Codec F) (qw qx qy qz : Str) : Except DecodeErr (Option (F × F × F × F)) :=
+  if qw ≠ [] ∧ qx ≠ [] ∧ qy ≠ [] ∧ qz ≠ [] then
+    match c.parse qw, c.parse qx, c.parse qy, c.parse qz with
+    | some a, some b, some c', some d => Except.ok (some (a, b, c', d))
+    | _, _, _, _ => Except.error DecodeErr.value
+  else if givenAreFloats c [qw, qx, qy, qz] then Except.ok none else Except.error DecodeErr.value
+
+/-- the translation of a trajectory row -/
+def trajTransOfFields (c : Codec F) (tx ty tz : Str) : Except DecodeErr (Option (F × F × F)) :=
+  if tx ≠ [] ∧ ty ≠ [] ∧ tz ≠ [] then
+    match c.parse tx, c.parse ty, c.parse tz with
+    | some a, some b, some c' => Except.ok (some (a, b, c'))
+    | _, _, _ => Except.error DecodeErr.value
+  else if givenAreFloats c [tx, ty, tz] then Except.ok none else Except.error DecodeErr.value
+
+/-- trajectories_from_file (csv.py:429-449): a part is present when ALL its tokens are non-empty, and then every token must
+  be a float; when it is not present, the tokens that ARE given must be floats all the same -/
 def trajPoseOfFields (c : Codec F) : List Str → Except DecodeErr (Pose F)
   | [qw, qx, qy, qz, tx, ty, tz] =>
-    let r : Except DecodeErr (Option (F × F × F × F)) :=
-      if qw ≠ [] ∧ qx ≠ [] ∧ qy ≠ [] ∧ qz ≠ [] then
-        match c.parse qw, c.parse qx, c.parse qy, c.parse qz with
-        | some a, some b, some c', some d => Except.ok (some (a, b, c', d))
-        | _, _, _, _ => Except.error DecodeErr.value
-      else Except.ok none
-    let t : Except DecodeErr (Option (F × F × F)) :=
-      if tx ≠ [] ∧ ty ≠ [] ∧ tz ≠ [] then
-        match c.parse tx, c.parse ty, c.parse tz with
-        | some a, some b, some c' => Except.ok (some (a, b, c'))
-        | _, _, _ => Except.error DecodeErr.value
-      else Except.ok none
-    match r, t with
+    match trajRotOfFields c qw qx qy qz, trajTransOfFields c tx ty tz with
     | Except.ok r, Except.ok t => Except.ok { r := r, t := t }
     | Except.error e, _ => Except.error e
     | _, Except.error e => Except.error e
   | _ => Except.error DecodeErr.arity
 
-/-- rigs_from_file (csv.py:366-373): float_array_or_none — a part is None as soon as ONE token is not a float -/
+/-- float_safe (csv.py): the float a token denotes; NO value for a blank token; anything else is an error (the D30 fix: it used to
+  be "no value" too, so that a mistyped number silently removed the rotation or the translation of a rig) -/
+def floatSafe (c : Codec F) (tok : Str) : Except DecodeErr (Option F) :=
+  match c.parse tok with
+  | some x => Except.ok (some x)
+  | none => if strip tok = [] then Except.ok none else Except.error DecodeErr.value
+
+/-- float_array_or_none: every token through float_safe (the first error wins), then None as soon as ONE token has no value -/
+def floatArrayOrNone (c : Codec F) : List Str → Except DecodeErr (Option (List F))
+  | [] => Except.ok (some [])
+  | t :: ts =>
+    match floatSafe c t with
+    | Except.error e => Except.error e
+    | Except.ok v =>
+      match floatArrayOrNone c ts with
+      | Except.error e => Except.error e
+      | Except.ok vs =>
+        Except.ok (match v, vs with
+          | some x, some xs => some (x :: xs)
+          | _, _ => none)
+
+/-- rigs_from_file (csv.py:366-373) -/
 def rigPoseOfFields (c : Codec F) : List Str → Except DecodeErr (Pose F)
   | [qw, qx, qy, qz, tx, ty, tz] =>
-    let r := match c.parse qw, c.parse qx, c.parse qy, c.parse qz with
-      | some a, some b, some c', some d => some (a, b, c', d)
-      | _, _, _, _ => none
-    let t := match c.parse tx, c.parse ty, c.parse tz with
-      | some a, some b, some c' => some (a, b, c')
-      | _, _, _ => none
-    Except.ok { r := r, t := t }
+    match floatArrayOrNone c [qw, qx, qy, qz], floatArrayOrNone c [tx, ty, tz] with
+    | Except.ok r, Except.ok t =>
+      Except.ok { r := match r with
+                    | some [a, b, c', d] => some (a, b, c', d)
+                    | _ => none,
+                  t := match t with
+                    | some [a, b, c'] => some (a, b, c')
+                    | _ => none }
+    | Except.error e, _ => Except.error e
+    | _, Except.error e => Except.error e
   | _ => Except.error DecodeErr.arity
 
 /-- a typed field value -/
